@@ -9,6 +9,8 @@
 //! ascending-key iteration, `insert` returns the previous value, set semantics
 //! for [`BTreeSet`]. Slots are moved element by element (no `Vec` growth, no
 //! `memmove`), which keeps every entry individually addressable for the solver.
+//! The slot array lives in a lazily allocated `Box`, so an empty container is a
+//! null pointer plus a length and moving a container never copies its slots.
 //! Exceeding [`CAP`] entries panics with a message containing
 //! `verif_flat capacity`; that is a bound of the verification harness, not a
 //! property of Echo.
@@ -22,8 +24,48 @@ use core::cmp::Ordering;
 /// Maximum number of entries per container in the model.
 pub const CAP: usize = 4;
 
-fn empty_slots<T>() -> [Option<T>; CAP] {
-    core::array::from_fn(|_| None)
+type Slots<T> = Option<Box<[Option<T>; CAP]>>;
+
+fn empty_slots<T>() -> Box<[Option<T>; CAP]> {
+    Box::new([const { None }; CAP])
+}
+
+fn live<T>(s: &Slots<T>, len: usize) -> &[Option<T>] {
+    match s {
+        Some(b) => &b[..len],
+        None => &[],
+    }
+}
+
+fn live_mut<T>(s: &mut Slots<T>, len: usize) -> &mut [Option<T>] {
+    match s {
+        Some(b) => &mut b[..len],
+        None => &mut [],
+    }
+}
+
+fn slots_mut<T>(s: &mut Slots<T>) -> &mut [Option<T>; CAP] {
+    if s.is_none() {
+        *s = Some(empty_slots());
+    }
+    match s {
+        Some(b) => b,
+        None => unreachable!("verif_flat: slots just allocated"),
+    }
+}
+
+fn clone_slots<T: Clone>(s: &Slots<T>, len: usize) -> Slots<T> {
+    let src = match s {
+        Some(b) => b,
+        None => return None,
+    };
+    let mut dst = empty_slots();
+    let mut i = 0;
+    while i < len {
+        dst[i] = src[i].clone();
+        i += 1;
+    }
+    Some(dst)
 }
 
 fn slot<T>(s: &Option<T>) -> &T {
@@ -63,10 +105,64 @@ fn shift_left<T>(slots: &mut [Option<T>; CAP], len: usize, pos: usize) {
 }
 
 /// Sorted slot-array stand-in for `std::collections::BTreeMap`.
-#[derive(Debug, Clone, PartialEq, Eq, PartialOrd, Ord, Hash)]
 pub struct BTreeMap<K, V> {
-    items: [Option<(K, V)>; CAP],
+    items: Slots<(K, V)>,
     len: usize,
+}
+
+impl<K: Clone, V: Clone> Clone for BTreeMap<K, V> {
+    fn clone(&self) -> Self {
+        Self {
+            items: clone_slots(&self.items, self.len),
+            len: self.len,
+        }
+    }
+}
+
+impl<K: core::fmt::Debug, V: core::fmt::Debug> core::fmt::Debug for BTreeMap<K, V> {
+    fn fmt(&self, f: &mut core::fmt::Formatter<'_>) -> core::fmt::Result {
+        f.debug_map().entries(self.iter()).finish()
+    }
+}
+
+impl<K: PartialEq, V: PartialEq> PartialEq for BTreeMap<K, V> {
+    fn eq(&self, other: &Self) -> bool {
+        if self.len != other.len {
+            return false;
+        }
+        let (a, b) = (live(&self.items, self.len), live(&other.items, other.len));
+        let mut i = 0;
+        while i < self.len {
+            if a[i] != b[i] {
+                return false;
+            }
+            i += 1;
+        }
+        true
+    }
+}
+
+impl<K: Eq, V: Eq> Eq for BTreeMap<K, V> {}
+
+impl<K: PartialOrd, V: PartialOrd> PartialOrd for BTreeMap<K, V> {
+    fn partial_cmp(&self, other: &Self) -> Option<Ordering> {
+        self.iter().partial_cmp(other.iter())
+    }
+}
+
+impl<K: Ord, V: Ord> Ord for BTreeMap<K, V> {
+    fn cmp(&self, other: &Self) -> Ordering {
+        self.iter().cmp(other.iter())
+    }
+}
+
+impl<K: core::hash::Hash, V: core::hash::Hash> core::hash::Hash for BTreeMap<K, V> {
+    fn hash<H: core::hash::Hasher>(&self, state: &mut H) {
+        state.write_usize(self.len);
+        for e in self.iter() {
+            e.hash(state);
+        }
+    }
 }
 
 impl<K, V> Default for BTreeMap<K, V> {
@@ -87,13 +183,13 @@ impl<'a, K: Ord, V> Entry<'a, K, V> {
         let i = match self.pos {
             Ok(i) => i,
             Err(i) => {
-                shift_right(&mut self.map.items, self.map.len, i);
-                self.map.items[i] = Some((self.key, f()));
+                shift_right(slots_mut(&mut self.map.items), self.map.len, i);
+                slots_mut(&mut self.map.items)[i] = Some((self.key, f()));
                 self.map.len += 1;
                 i
             }
         };
-        &mut slot_mut(&mut self.map.items[i]).1
+        &mut slot_mut(&mut slots_mut(&mut self.map.items)[i]).1
     }
     pub fn or_insert(self, v: V) -> &'a mut V {
         self.or_insert_with(|| v)
@@ -106,7 +202,7 @@ impl<'a, K: Ord, V> Entry<'a, K, V> {
     }
     pub fn and_modify<F: FnOnce(&mut V)>(self, f: F) -> Self {
         if let Ok(i) = self.pos {
-            f(&mut slot_mut(&mut self.map.items[i]).1);
+            f(&mut slot_mut(&mut slots_mut(&mut self.map.items)[i]).1);
         }
         self
     }
@@ -149,7 +245,7 @@ impl<'a, K, V> ExactSizeIterator for Iter<'a, K, V> {}
 
 /// Owning iterator over the live slots of a map.
 pub struct IntoIter<K, V> {
-    items: [Option<(K, V)>; CAP],
+    items: Slots<(K, V)>,
     next: usize,
     len: usize,
 }
@@ -160,7 +256,10 @@ impl<K, V> Iterator for IntoIter<K, V> {
         if self.next >= self.len {
             return None;
         }
-        let e = self.items[self.next].take();
+        let e = match &mut self.items {
+            Some(b) => b[self.next].take(),
+            None => None,
+        };
         self.next += 1;
         e
     }
@@ -169,7 +268,7 @@ impl<K, V> Iterator for IntoIter<K, V> {
 impl<K, V> BTreeMap<K, V> {
     pub fn new() -> Self {
         Self {
-            items: empty_slots(),
+            items: None,
             len: 0,
         }
     }
@@ -180,21 +279,17 @@ impl<K, V> BTreeMap<K, V> {
         self.len == 0
     }
     pub fn clear(&mut self) {
-        let mut i = 0;
-        while i < self.len {
-            self.items[i] = None;
-            i += 1;
-        }
+        self.items = None;
         self.len = 0;
     }
     pub fn iter(&self) -> Iter<'_, K, V> {
         Iter {
-            items: &self.items[..self.len],
+            items: live(&self.items, self.len),
         }
     }
     pub fn iter_mut(&mut self) -> impl Iterator<Item = (&K, &mut V)> {
         let len = self.len;
-        self.items[..len].iter_mut().map(|s| {
+        live_mut(&mut self.items, len).iter_mut().map(|s| {
             let e = slot_mut(s);
             (&e.0, &mut e.1)
         })
@@ -231,7 +326,7 @@ impl<K: Ord, V> BTreeMap<K, V> {
     {
         let mut i = 0;
         while i < self.len {
-            match slot(&self.items[i]).0.borrow().cmp(key) {
+            match slot(&live(&self.items, self.len)[i]).0.borrow().cmp(key) {
                 Ordering::Less => i += 1,
                 Ordering::Equal => return Ok(i),
                 Ordering::Greater => return Err(i),
@@ -245,7 +340,7 @@ impl<K: Ord, V> BTreeMap<K, V> {
         Q: Ord + ?Sized,
     {
         match self.find(key) {
-            Ok(i) => Some(&slot(&self.items[i]).1),
+            Ok(i) => Some(&slot(&live(&self.items, self.len)[i]).1),
             Err(_) => None,
         }
     }
@@ -255,7 +350,7 @@ impl<K: Ord, V> BTreeMap<K, V> {
         Q: Ord + ?Sized,
     {
         match self.find(key) {
-            Ok(i) => Some(&mut slot_mut(&mut self.items[i]).1),
+            Ok(i) => Some(&mut slot_mut(&mut slots_mut(&mut self.items)[i]).1),
             Err(_) => None,
         }
     }
@@ -266,7 +361,7 @@ impl<K: Ord, V> BTreeMap<K, V> {
     {
         match self.find(key) {
             Ok(i) => {
-                let e = slot(&self.items[i]);
+                let e = slot(&live(&self.items, self.len)[i]);
                 Some((&e.0, &e.1))
             }
             Err(_) => None,
@@ -281,10 +376,10 @@ impl<K: Ord, V> BTreeMap<K, V> {
     }
     pub fn insert(&mut self, key: K, value: V) -> Option<V> {
         match self.find(&key) {
-            Ok(i) => Some(core::mem::replace(&mut slot_mut(&mut self.items[i]).1, value)),
+            Ok(i) => Some(core::mem::replace(&mut slot_mut(&mut slots_mut(&mut self.items)[i]).1, value)),
             Err(i) => {
-                shift_right(&mut self.items, self.len, i);
-                self.items[i] = Some((key, value));
+                shift_right(slots_mut(&mut self.items), self.len, i);
+                slots_mut(&mut self.items)[i] = Some((key, value));
                 self.len += 1;
                 None
             }
@@ -297,8 +392,8 @@ impl<K: Ord, V> BTreeMap<K, V> {
     {
         match self.find(key) {
             Ok(i) => {
-                let e = self.items[i].take();
-                shift_left(&mut self.items, self.len, i);
+                let e = slots_mut(&mut self.items)[i].take();
+                shift_left(slots_mut(&mut self.items), self.len, i);
                 self.len -= 1;
                 e.map(|(_, v)| v)
             }
@@ -313,14 +408,14 @@ impl<K: Ord, V> BTreeMap<K, V> {
         let mut i = 0;
         while i < self.len {
             let keep = {
-                let e = slot_mut(&mut self.items[i]);
+                let e = slot_mut(&mut slots_mut(&mut self.items)[i]);
                 f(&e.0, &mut e.1)
             };
             if keep {
                 i += 1;
             } else {
-                self.items[i] = None;
-                shift_left(&mut self.items, self.len, i);
+                slots_mut(&mut self.items)[i] = None;
+                shift_left(slots_mut(&mut self.items), self.len, i);
                 self.len -= 1;
             }
         }
@@ -373,7 +468,7 @@ impl<'a, K, V> IntoIterator for &'a mut BTreeMap<K, V> {
     fn into_iter(self) -> Self::IntoIter {
         let len = self.len;
         IterMut {
-            items: self.items[..len].iter_mut(),
+            items: live_mut(&mut self.items, len).iter_mut(),
         }
     }
 }
@@ -404,10 +499,64 @@ where
 }
 
 /// Sorted slot-array stand-in for `std::collections::BTreeSet`.
-#[derive(Debug, Clone, PartialEq, Eq, PartialOrd, Ord, Hash)]
 pub struct BTreeSet<T> {
-    items: [Option<T>; CAP],
+    items: Slots<T>,
     len: usize,
+}
+
+impl<T: Clone> Clone for BTreeSet<T> {
+    fn clone(&self) -> Self {
+        Self {
+            items: clone_slots(&self.items, self.len),
+            len: self.len,
+        }
+    }
+}
+
+impl<T: core::fmt::Debug> core::fmt::Debug for BTreeSet<T> {
+    fn fmt(&self, f: &mut core::fmt::Formatter<'_>) -> core::fmt::Result {
+        f.debug_set().entries(self.iter()).finish()
+    }
+}
+
+impl<T: PartialEq> PartialEq for BTreeSet<T> {
+    fn eq(&self, other: &Self) -> bool {
+        if self.len != other.len {
+            return false;
+        }
+        let (a, b) = (live(&self.items, self.len), live(&other.items, other.len));
+        let mut i = 0;
+        while i < self.len {
+            if a[i] != b[i] {
+                return false;
+            }
+            i += 1;
+        }
+        true
+    }
+}
+
+impl<T: Eq> Eq for BTreeSet<T> {}
+
+impl<T: PartialOrd> PartialOrd for BTreeSet<T> {
+    fn partial_cmp(&self, other: &Self) -> Option<Ordering> {
+        self.iter().partial_cmp(other.iter())
+    }
+}
+
+impl<T: Ord> Ord for BTreeSet<T> {
+    fn cmp(&self, other: &Self) -> Ordering {
+        self.iter().cmp(other.iter())
+    }
+}
+
+impl<T: core::hash::Hash> core::hash::Hash for BTreeSet<T> {
+    fn hash<H: core::hash::Hasher>(&self, state: &mut H) {
+        state.write_usize(self.len);
+        for e in self.iter() {
+            e.hash(state);
+        }
+    }
 }
 
 impl<T> Default for BTreeSet<T> {
@@ -451,7 +600,7 @@ impl<'a, T> ExactSizeIterator for SetIter<'a, T> {}
 
 /// Owning iterator over the live slots of a set.
 pub struct SetIntoIter<T> {
-    items: [Option<T>; CAP],
+    items: Slots<T>,
     next: usize,
     len: usize,
 }
@@ -462,7 +611,10 @@ impl<T> Iterator for SetIntoIter<T> {
         if self.next >= self.len {
             return None;
         }
-        let e = self.items[self.next].take();
+        let e = match &mut self.items {
+            Some(b) => b[self.next].take(),
+            None => None,
+        };
         self.next += 1;
         e
     }
@@ -471,7 +623,7 @@ impl<T> Iterator for SetIntoIter<T> {
 impl<T> BTreeSet<T> {
     pub fn new() -> Self {
         Self {
-            items: empty_slots(),
+            items: None,
             len: 0,
         }
     }
@@ -482,16 +634,12 @@ impl<T> BTreeSet<T> {
         self.len == 0
     }
     pub fn clear(&mut self) {
-        let mut i = 0;
-        while i < self.len {
-            self.items[i] = None;
-            i += 1;
-        }
+        self.items = None;
         self.len = 0;
     }
     pub fn iter(&self) -> SetIter<'_, T> {
         SetIter {
-            items: &self.items[..self.len],
+            items: live(&self.items, self.len),
         }
     }
     pub fn first(&self) -> Option<&T> {
@@ -510,7 +658,7 @@ impl<T: Ord> BTreeSet<T> {
     {
         let mut i = 0;
         while i < self.len {
-            match slot(&self.items[i]).borrow().cmp(key) {
+            match slot(&live(&self.items, self.len)[i]).borrow().cmp(key) {
                 Ordering::Less => i += 1,
                 Ordering::Equal => return Ok(i),
                 Ordering::Greater => return Err(i),
@@ -529,8 +677,8 @@ impl<T: Ord> BTreeSet<T> {
         match self.find(&value) {
             Ok(_) => false,
             Err(i) => {
-                shift_right(&mut self.items, self.len, i);
-                self.items[i] = Some(value);
+                shift_right(slots_mut(&mut self.items), self.len, i);
+                slots_mut(&mut self.items)[i] = Some(value);
                 self.len += 1;
                 true
             }
@@ -543,8 +691,8 @@ impl<T: Ord> BTreeSet<T> {
     {
         match self.find(key) {
             Ok(i) => {
-                self.items[i] = None;
-                shift_left(&mut self.items, self.len, i);
+                slots_mut(&mut self.items)[i] = None;
+                shift_left(slots_mut(&mut self.items), self.len, i);
                 self.len -= 1;
                 true
             }
